@@ -55,6 +55,7 @@ class Rule:
         self.functions = set()
         self.notes = []
         self.broken = None
+        self.follows_values = False     # the rule tracks values through locals itself (see engine: second opinion)
 
     def ob(self, fn, what, ok=True):
         """Record one obligation (discharged unless ok is False)."""
@@ -216,7 +217,7 @@ def run_property(prop_id, module, tier="quick", configs=None, replay=None):
                 if r is not None and raw_ok(r):
                     if r.findings and alts:
                         keep, dropped = [], 0
-                        semantic = r.template in SEMANTIC_TEMPLATES
+                        semantic = r.template in SEMANTIC_TEMPLATES or getattr(r, "follows_values", False)
                         for f in r.findings:
                             confirmed = True
                             for vi, (_, n) in enumerate(alts):
